@@ -114,6 +114,8 @@ type simRun struct {
 	led ledgers
 	st  runStats
 
+	digests map[uint64]struct{}
+	lastDigest uint64
 	dbgOn bool
 	dbgF  func(string)
 
@@ -177,6 +179,7 @@ func (run *simRun) liveIncs() []*nodeInc {
 
 func newSimRun(seed uint64, prof profile, tape *rt.Tape, quiesce func()) *simRun {
 	run := &simRun{seed: seed, prof: prof, tape: tape, raftOf: map[*Raft]*nodeInc{}, links: map[[2]int]bool{}}
+	run.digests = map[uint64]struct{}{}
 	run.st.Faults = map[string]int{}
 	run.st.Reach = map[string]int{}
 	run.cfg = drawConfig(tape, prof)
@@ -742,7 +745,10 @@ func (run *simRun) loop() {
 			idleStreak = 0
 		}
 		if run.sim.Steps > 30_000_000 {
-			run.infra = "step budget exhausted"
+			run.infra = "step budget exhausted; tail:"
+			for _, e := range run.sim.Tail(30) {
+				run.infra += fmt.Sprintf("\n %d t=%d %c %d %s %s", e.Step, e.Now, e.Kind, e.ID, run.sim.SiteName(e.Site), e.Name)
+			}
 			return
 		}
 	}
